@@ -12,14 +12,21 @@ from checks import c03
 def result_event(tid, examples, kw, sizekw, rnd):
     r = rx.run_extract(examples, **kw)
     kept = rx.kept_examples(examples, kw.get('strip', False), kw.get('remove_empties', False))
-    ids = {s: 'e%d' % i for i, s in enumerate(sorted(kept))}
+    # the strings the expressions are matched against: under strip the strings AS SUPPLIED (the expressions are wrapped for that)
+    if kw.get('strip'):
+        items = examples.keys() if isinstance(examples, dict) else examples
+        subjects = sorted({e for e in items if e is not None and not (isinstance(examples, dict) and examples[e] == 0)
+                           and not (kw.get('remove_empties') and e.strip() == '')})
+    else:
+        subjects = sorted(kept)
+    ids = {s: 'e%d' % i for i, s in enumerate(subjects)}
     ev = {'tid': tid, 'ev': 'Result', 'raised': r['raised'].split(':')[0] if r['raised'] != 'none' else 'none',
           'rows': [], 'distincttexts': True, 'nkept': len(kept), 'compiles': True, 'anchored': True,
           'hastag': False, 'tagrows': []}
     if r['raised'] != 'none':
         return ev, r
     rex = r['rex']
-    ev['rows'] = [[ids[s] for s in sorted(kept) if rx.full_match(x, s)] for x in rex]
+    ev['rows'] = [[ids[s] for s in subjects if rx.full_match(x, s)] for x in rex]
     ev['distincttexts'] = len(set(rex)) == len(rex)
     ev['compiles'] = all(rx.compiles(x) for x in rex)
     def anchored(x):
@@ -36,7 +43,7 @@ def result_event(tid, examples, kw, sizekw, rnd):
     comparable = sizekw is None or kw.get('seed') is not None      # unseeded sampling is random by design
     if r2['raised'] == 'none' and comparable:
         ev['hastag'] = True
-        ev['tagrows'] = [[ids[s] for s in sorted(kept) if rx.full_match(x, s)] for x in r2['rex']]
+        ev['tagrows'] = [[ids[s] for s in subjects if rx.full_match(x, s)] for x in r2['rex']]
         r['tagged_rex'] = r2['rex']
     return ev, r
 
@@ -63,6 +70,15 @@ def run(chk):
             x = rnd.choice(rx.EXTRAS)
             if x:
                 kw['extra_letters'] = x
+            sizekw = None
+        elif tid % 41 == 5:
+            # long strings of one shape: many short alphanumeric fragments (the capture-group budget of 99 is reached)
+            npairs = rnd.choice([30, 40, 45, 48])
+            def longstr():
+                return '-'.join(rnd.choice('abcdefgh') + rnd.choice('0123456789') for _ in range(npairs))
+            ex = [longstr() for _ in range(rnd.randint(2, 3))]
+            kw = {'tag': True} if rnd.random() < 0.5 else {}
+            kw['dialect'] = rnd.choice(rx.DIALECTS)
             sizekw = None
         elif tid % 7 == 3:
             # shapes that occur equally often, with fewer patterns allowed than shapes: which ones survive the pruning
